@@ -23,7 +23,7 @@ import (
 
 func cases(tier string) int {
 	if tier == "thorough" {
-		return 30000
+		return 100000
 	}
 	return 2400
 }
@@ -362,7 +362,7 @@ func hasMinValues(np *v1.NodePool) bool {
 func init() {
 	reg.Register(&reg.Prop{
 		ID: "C19", Level: "exploration", Race: true, RaceIsViolation: true,
-		RaceFrac: map[string]float64{"quick": 0.15, "thorough": 0.1},
+		RaceFrac: map[string]float64{"quick": 0.15, "thorough": 0.05},
 		Rule: "each case = 2-5 weighted NodePools (ties and nil weights) over shared or per-pool catalogs with price ties, a batch of 1-10 pods without inter-pod constraints, parallelism in {1,2,4,8,16}, MaxInstanceTypes lowered to 2-4; real Scheduler.Solve → Truncate → Provisioner.Create. Weight monitor: the opener pod of every new NodeClaim is judged (conservatively) infeasible on every strictly heavier ready pool. Price monitor: the instance types captured at the API boundary vs the scheduler's pre-truncation options priced by cheapest compatible available offering. Non-trivial = a weight judgement against a heavier pool or an actual truncation was observed; distinct by (monitor, parallelism, preference policy, number of pools).",
 		Cases: cases, Run: run,
 		MinObserved: map[string]int{"weight_judgements": 50, "truncations_observed": 50},
